@@ -24,6 +24,10 @@ C["C09"]=dict(cat="model_checking",engine="vsched+mc (race build)",
  text="~10^4 generated programs (all unordered pairs of single operations over a ~33-op alphabet of the documented concurrent API, deeper-bounded pairs, 2-op sequences and triples over a reduced alphabet) x 8 core families x fresh/warmed-up objects, each explored over all schedules within the preemption bound, in a -race build whose scheduler hand-off is invisible to TSan (plain-word spin in //go:norace code, real primitives executed after each grant) so the race detector's happens-before relation is the program's own on every explored schedule. Verdicts: TSan report (worker exit 66, schedule taken from a journal, replayed 3x in fresh processes), deadlock, goroutine leak, livelock, panic.",
  note="Happens-before race detection per explored schedule; 2-3 threads, 1-2 ops each; relaxed-memory effects of racy code not explored. Calibration: a seeded racy counter is reported, the locked variant and a pool hand-off are clean. "+TB,
  tech="stateless model checking of the implementation under a controlled scheduler with the Go race detector active on every explored schedule")
+C["C11"]=dict(cat="model_checking",engine="seqx+vsched",
+ text="Sequential: every sequence of length <=3 (4 thorough) over 8 keys (two messages, an fnv32a-mod-4096 collider found by search, two levels, a disabled level, out-of-range levels below and above) x 6 timestamp deltas {0, tick-1, tick, tick+1, -1, -(tick+1)} for first, thereafter in 0..3 and tick in {1ns, 10ns, 1s}, on the parent sampler and alternating parent/With-child, with the real sampler driven in lockstep with a reference counter model (no state deduplication; fresh instances every 10^4 sequences); oracle per entry: forwarded iff admitted, hook called exactly once with the applied decision, disabled levels consume nothing, out-of-range levels pass unsampled. Concurrent: every interleaving (sampler atomics are the scheduling points; unbounded for <=4 entries, preemption bound 4 above) of 2-3 threads x 1-2 same-key entries inside an open window (exact admitted count) and straddling the window end (per-entry accounting only).",
+ note="Hash = fnv32a mod 4096 per level; timestamps inside the int64 nanosecond range; sequence length and thread counts as stated. "+TB,
+ tech="explicit enumeration of all entry histories against a reference model + exhaustive interleaving exploration of the real atomics under a controlled scheduler")
 checks=[]
 for pid in sorted(C):
     c=C[pid]
